@@ -22,7 +22,7 @@ from . import c01
 ID = "C19"
 LEVEL = "exploration"
 TECHNIQUE = "deterministic simulation of the outbound path: bursts routed to real TCP handlers over transports with tiny high-water marks (drain completion seeded), to the real TTY handler on a simulated K-worker pool (effect/completion order seeded) and from the real client connection handler; per-connection output compared with the routed order; one connection optionally stalled for ever"
-RULE = ("scenario = bursts of 1..5 device updates routed back-to-back (same loop iteration) or across iterations to 1-3 TCP connections "
+RULE = ("scenario = bursts of 1..5 updates of one or two devices routed back-to-back (same loop iteration) or across iterations to 1-3 TCP connections "
         "and optionally the TTY channel x pool width 2..6 x pool jitter x high-water mark {0,1,64,64Ki} x latency/fragmentation x optional "
         "stall-for-ever of one connection (the simulated stdout delivers written data to the reader at flush() only); plus the client-side handler sending bursts to a stub server; distinct = signature (world, "
         "burst shapes, K, jitter, hwm, stall target, probes hit); non-trivial = at least one burst of >= 2 messages")
@@ -40,13 +40,13 @@ CHUNK = 40
 STEP_KEYS = ("steps",)
 
 
-def _device():
+def _device(name="D"):
     els = {f"e{i}": {"name": f"T{i}", "label": None, "default": "init", "enabled": True} for i in range(2)}
     v = {"kind": "Text", "name": "TXT", "label": None, "state": "Ok", "perm": "rw", "timeout": 0, "enabled": True,
          "elements": els, "rule": None, "default_on": None}
     b = {"kind": "BLOB", "name": "IMG", "label": None, "state": "Ok", "perm": "ro", "timeout": 0, "enabled": True,
          "elements": {"e0": {"name": "B0", "label": None, "default": None, "enabled": True}}, "rule": None, "default_on": None}
-    return {"name": "D", "name_via": "class", "levels": [{"groups": {"g0": {"name": "MAIN", "enabled": True, "vectors": {"v0": v, "v1": b}}}}]}
+    return {"name": name, "name_via": "class" if name == "D" else "ctor", "levels": [{"groups": {"g0": {"name": "MAIN", "enabled": True, "vectors": {"v0": v, "v1": b}}}}]}
 
 
 def generate(seed, tier, index):
@@ -83,7 +83,9 @@ def generate(seed, tier, index):
         frag_choices = ["whole", "coalesce", "fixed:1024"]
     else:
         frag_choices = ["whole", "fixed:1", "fixed:7", "random", "coalesce"]
-    return {"world": world, "steps": steps, "ntcp": ntcp, "tty": tty, "stall": stall, "frag_choices": frag_choices, "blob_peers": blob_peers,
+    return {"world": world, "steps": steps, "ntcp": ntcp, "tty": tty, "stall": stall,
+            # updates come from two devices (which one: bit k of the pattern for the k-th update) or from one
+            "dev_pattern": rng.randrange(1, 1 << 16) if rng.random() < 0.5 else 0, "frag_choices": frag_choices, "blob_peers": blob_peers,
             "pool": {"workers": rng.randint(2, 6), "jitter": rng.choice(["none", "small", "small", "wide"])},
             "net": {"latency": rng.choice(["zero", "lan", "slow", "bursty"]), "frag": rng.choice(frag_choices),
                     "hwm": rng.choice([0, 1, 64, 65536])},
@@ -121,13 +123,16 @@ def _check_output(name, text, routed, stalled, viol, facts):
 
 
 def execute_server(scen, sim, viol, probes, facts):
-    stack = Stack(sim, [_device()], with_tty=scen["tty"])
+    pattern = scen.get("dev_pattern", 0)
+    stack = Stack(sim, [_device()] + ([_device("D2")] if pattern else []), with_tty=scen["tty"])
+    if pattern:
+        probes["updates_from_two_devices"] = 1
     peers = []
     for i in range(scen["ntcp"]):
         peers.append(stack.add_raw(f"tcp{i}"))
     sim.settle()
     for i in scen.get("blob_peers", []):
-        sim.do(peers[i].send, '<enableBLOB device="D">Also</enableBLOB>\n')
+        sim.do(peers[i].send, '<enableBLOB device="D">Also</enableBLOB>\n' + ('<enableBLOB device="D2">Also</enableBLOB>\n' if pattern else ""))
     sim.settle()
     handlers = list(server_tcp.ConnectionHandler.connections)
     routed = {}  # name -> [views]
@@ -164,12 +169,13 @@ def execute_server(scen, sim, viol, probes, facts):
 
         def one_update(big_len=0, blob=False):
             counter[0] += 1
+            dn = "D2" if (pattern >> (counter[0] % 16)) & 1 else "D"
             if blob:
                 from indi.device.values import BLOB as BlobValue
-                stack.el_obj("D", "IMG", "B0").value = BlobValue(b"frame%d" % counter[0], ".f")
+                stack.el_obj(dn, "IMG", "B0").value = BlobValue(b"frame%d" % counter[0], ".f")
                 probes["blob_update_in_burst"] = probes.get("blob_update_in_burst", 0) + 1
                 return
-            el = stack.el_obj("D", "TXT", "T0" if counter[0] % 2 else "T1")
+            el = stack.el_obj(dn, "TXT", "T0" if counter[0] % 2 else "T1")
             el.value = f"u{counter[0]}" + ("x" * big_len)
             if big_len:
                 probes["large_message_routed"] = probes.get("large_message_routed", 0) + 1
